@@ -8,11 +8,13 @@ package main
 import (
 	"encoding/json"
 	"fmt"
+	"net/url"
 	"sort"
 	"strconv"
 	"strings"
 
 	"github.com/glyphlang/glyph/pkg/ast"
+	"github.com/glyphlang/glyph/pkg/server"
 )
 
 // ---- printing ---------------------------------------------------------------
@@ -447,7 +449,7 @@ func c02ReqShape(r c02Req, route *ast.Route, prog string) string {
 		for _, pair := range strings.Split(r.Query, "&") {
 			kv := strings.SplitN(pair, "=", 2)
 			key := kv[0]
-			named := !strings.Contains(key, "%") && strings.Contains(prog, key)
+			named := !strings.Contains(key, "%") && c02NamesWord(prog, key)
 			if !named {
 				if strings.Contains(key, "%z") {
 					key = "BADESC"
@@ -906,6 +908,12 @@ func c02CaseVariants(c c02Case) []c02Case {
 		nr.Body = b
 		out = append(out, c.withRoute(&nr))
 	}
+	// 3c. replace a value read from the request by the literal it denotes
+	for _, b := range c02RequestInlineVariants(c) {
+		nr := *c.route
+		nr.Body = b
+		out = append(out, c.withRoute(&nr))
+	}
 	// 4. body
 	for _, b := range c02BlockVariants(c.route.Body) {
 		if c02EndsWithReturn(c.route.Body) && !c02EndsWithReturn(b) {
@@ -1259,4 +1267,115 @@ func c02VarWritten(b []ast.Statement, v string) bool {
 		return e
 	})
 	return found
+}
+
+// ---- request inlining -----------------------------------------------------------
+
+// c02RequestInlineVariants: for every scalar the route reads from the request
+// - input.K of a JSON object body, query.K of an undeclared query parameter, a
+// path parameter - substitute the literal both engines bind for it (JSON numbers
+// are float64 in both, query and path values are strings).  The shrinker keeps a
+// variant only if the two engines still disagree the same way, so a disagreement
+// about request binding is never explained away by this step.
+func c02RequestInlineVariants(c c02Case) [][]ast.Statement {
+	var out [][]ast.Statement
+	body := c.route.Body
+	subst := func(match func(ast.Expr) bool, lit ast.Expr) {
+		used := false
+		nb := c02MapStmts(body, func(e ast.Expr) ast.Expr {
+			if match(e) {
+				used = true
+				return lit
+			}
+			return e
+		})
+		if used {
+			out = append(out, nb)
+		}
+	}
+	fieldOf := func(v, k string) func(ast.Expr) bool {
+		return func(e ast.Expr) bool {
+			fa, ok := e.(ast.FieldAccessExpr)
+			if !ok || fa.Field != k {
+				return false
+			}
+			ve, ok := fa.Object.(ast.VariableExpr)
+			return ok && ve.Name == v
+		}
+	}
+	if m, ok := c02EngineBody(c.req).(map[string]interface{}); ok && !c02VarWritten(body, "input") {
+		keys := make([]string, 0, len(m))
+		for k := range m {
+			keys = append(keys, k)
+		}
+		sort.Strings(keys)
+		for _, k := range keys {
+			var lit ast.Literal
+			switch v := m[k].(type) {
+			case nil:
+				lit = ast.NullLiteral{}
+			case bool:
+				lit = ast.BoolLiteral{Value: v}
+			case string:
+				lit = ast.StringLiteral{Value: v}
+			case float64:
+				lit = ast.FloatLiteral{Value: v}
+			default:
+				continue
+			}
+			subst(fieldOf("input", k), ast.LiteralExpr{Value: lit})
+		}
+	}
+	if c.req.Query != "" && !c02VarWritten(body, "query") {
+		declared := map[string]bool{}
+		for _, q := range c.route.QueryParams {
+			declared[q.Name] = true
+		}
+		if vals, err := url.ParseQuery(c.req.Query); err == nil {
+			keys := make([]string, 0, len(vals))
+			for k := range vals {
+				keys = append(keys, k)
+			}
+			sort.Strings(keys)
+			for _, k := range keys {
+				if !declared[k] && len(vals[k]) == 1 {
+					subst(fieldOf("query", k), ast.LiteralExpr{Value: ast.StringLiteral{Value: vals[k][0]}})
+				}
+			}
+		}
+	}
+	for _, name := range server.ExtractRouteParamNames(c.route.Path) {
+		v, ok := c.req.Params[name]
+		if !ok {
+			v = "1"
+		}
+		if c.req.Path != "" || c02VarWritten(body, name) {
+			continue
+		}
+		name := name
+		subst(func(e ast.Expr) bool { ve, ok := e.(ast.VariableExpr); return ok && ve.Name == name }, ast.LiteralExpr{Value: ast.StringLiteral{Value: v}})
+	}
+	return out
+}
+
+// c02NamesWord: does prog contain word as a whole identifier?
+func c02NamesWord(prog, word string) bool {
+	if word == "" {
+		return false
+	}
+	isID := func(b byte) bool {
+		return b == '_' || (b >= '0' && b <= '9') || (b >= 'a' && b <= 'z') || (b >= 'A' && b <= 'Z')
+	}
+	for i := 0; ; {
+		j := strings.Index(prog[i:], word)
+		if j < 0 {
+			return false
+		}
+		j += i
+		end := j + len(word)
+		if (j == 0 || !isID(prog[j-1])) && (end == len(prog) || !isID(prog[end])) {
+			return true
+		}
+		i = j + 1
+	}
 }
